@@ -116,6 +116,12 @@ fn gen_history(rng: &mut Prng, prop: &str, thorough: bool) -> History {
         // small level limits: size-triggered compactions of levels >= 1 (compaction pointers)
         ops.push(Op::LevelLimit(*rng.pick(&[512u64, 2048, 8192])));
     }
+    if rng.chance(1, 4) {
+        ops.push(Op::ListOrder(rng.range(1, 2) as u8));
+    }
+    if rng.chance(1, 5) {
+        ops.push(Op::Foreign);
+    }
     let mut next_snap = 0u32;
     let mut live: Vec<u32> = vec![];
     let mut live_iters: Vec<u32> = vec![];
